@@ -106,3 +106,7 @@ def replay(d):
         got = [point_difference_to_imps(x - 1), point_difference_to_imps(x)]
         return got[1] != R.imps(x) or got[1] < got[0], f'imps({x - 1}), imps({x}) = {got}, scale says {R.imps(x)}'
     return False, 'no replay data'
+
+
+from ..conc import driver as _conc  # noqa: E402
+_conc.wrap(globals(), 'C16')
